@@ -46,7 +46,11 @@ def _custom_source_bypass(prog: Program, L: Ledger) -> None:
     fb = prog.cls("ForceBias")
     classes = [fb] + prog.subclasses(fb, strict=True)
     step = prog.lookup_method(fb, "step")
-    step_reads = {n.attr for c in classes for f in [c.methods.get("step")] if f is not None for n in ast.walk(f.node)
+    from .. import memo as _memo
+
+    # what step() reads, helpers and properties it goes through included
+    on_step = _memo.reach(prog, [f for c in classes for f in [c.methods.get("step")] if f is not None], by_name=False)
+    step_reads = {n.attr for f in on_step.values() if f.cls is not None and f.cls in classes and f.name != "__init__" for n in ast.walk(f.node)
                   if isinstance(n, ast.Attribute) and isinstance(n.value, ast.Name) and n.value.id == "self"}
     customs = []  # (attr, default source text, updater)
     for c in classes:
@@ -79,7 +83,13 @@ def _custom_source_bypass(prog: Program, L: Ledger) -> None:
                         if isinstance(t, ast.Attribute) and isinstance(t.value, ast.Name) and t.value.id == "self":
                             used = {n_.id for n_ in ast.walk(st.value) if isinstance(n_, ast.Name)}
                             for p_, g_ in default_src.items():
-                                if p_ in used and "self." in g_:
+                                derived = {p_}
+                                for _r in range(4):
+                                    for s2 in walk_no_nested(f.node):
+                                        if isinstance(s2, ast.Assign) and len(s2.targets) == 1 and isinstance(s2.targets[0], ast.Name) \
+                                                and any(isinstance(n_, ast.Name) and n_.id in derived for n_ in ast.walk(s2.value)):
+                                            derived.add(s2.targets[0].id)
+                                if (derived & used) and "self." in g_:
                                     customs.append((t.attr, g_, f))
     n = 0
     for attr, g, upd in customs:
@@ -93,11 +103,31 @@ def _custom_source_bypass(prog: Program, L: Ledger) -> None:
                 if not reads_g:
                     continue
                 n += 1
-                written = {t.attr if isinstance(t, ast.Attribute) else (t.value.attr if isinstance(t, ast.Subscript) and isinstance(t.value, ast.Attribute) else None)
-                           for st in walk_no_nested(f.node) if isinstance(st, (ast.Assign, ast.AugAssign))
-                           for t in (st.targets if isinstance(st, ast.Assign) else [st.target])
-                           if (isinstance(t, ast.Attribute) and norm(t.value) == "self") or (isinstance(t, ast.Subscript) and isinstance(t.value, ast.Attribute) and norm(t.value.value) == "self")}
-                hit = sorted((written - {None}) & step_reads)
+                # attributes that receive a value computed from G (through locals)
+                tainted: set[str] = set()
+
+                def _dep(e_):
+                    return any((isinstance(x_, (ast.Call, ast.Attribute)) and norm(x_) == g) or (isinstance(x_, ast.Name) and x_.id in tainted) for x_ in ast.walk(e_))
+
+                for _round in range(4):
+                    for st in walk_no_nested(f.node):
+                        if isinstance(st, (ast.Assign, ast.AugAssign, ast.AnnAssign)) and getattr(st, "value", None) is not None and _dep(st.value):
+                            for t in (st.targets if isinstance(st, ast.Assign) else [st.target]):
+                                for tt in (t.elts if isinstance(t, (ast.Tuple, ast.List)) else [t]):
+                                    if isinstance(tt, ast.Name):
+                                        tainted.add(tt.id)
+                written = set()
+                for st in walk_no_nested(f.node):
+                    if isinstance(st, (ast.Assign, ast.AugAssign, ast.AnnAssign)) and getattr(st, "value", None) is not None and _dep(st.value):
+                        for t in (st.targets if isinstance(st, ast.Assign) else [st.target]):
+                            b = t
+                            while isinstance(b, ast.Subscript):
+                                b = b.value
+                            if isinstance(b, ast.Attribute) and norm(b.value) == "self":
+                                written.add(b.attr)
+                hit = sorted((written & step_reads) - {attr})  # storing the default into the attribute itself is a re-default, not a bypass
+                if not hit and f.name != "step":
+                    continue
                 if hit or f.name == "step":
                     L.violation("B", f"{f.qualname}:bypasses-custom-{attr}", f"{f.module.relpath}:{reads_g[0].lineno}",
                                 f"{f.qualname} reads `{g}` itself{' and stores into `self.' + hit[0] + '`, which step() reads' if hit else ''}; `self.{attr}` is what {upd.qualname}(...) lets the caller supply (defaulting to `{g}`): the two disagree as soon as custom values were given",
